@@ -119,6 +119,12 @@ func (r *ComDoc) writeShortSector(shortSector SecID, content []byte) error {
 	offset := int(shortSector)*r.ShortSectorSize - bigSectorIndex*r.SectorSize
 	root := &r.Files[r.rootStorage]
 	bigSectorID := root.NextSector
+	if bigSectorID < 0 {
+		// there is no short-sector stream yet, start one
+		bigSectorID = r.makeFreeSectors(1, false)[0]
+		r.SAT[bigSectorID] = SecIDEndOfChain
+		root.NextSector = bigSectorID
+	}
 	for ; bigSectorIndex > 0; bigSectorIndex-- {
 		next := r.SAT[bigSectorID]
 		if next < 0 {
